@@ -42,13 +42,14 @@ _BASE = dict(allow_no_pos_synset=False, allow_frame_without_id=False, lex_frame_
 
 
 @st.composite
-def _cases(draw, route=None):
+def _cases(draw, route=None, versions=None, max_entries=3):
     route = route or draw(st.sampled_from(ROUTES))
     n = draw(st.integers(2, 3)) if 'collection' in route else draw(st.integers(1, 2))
     resources, styles = [], []
     for k in range(n):
         pool = tuple(f'i{k}{j}' for j in range(4))
-        prof = gen.Profile(ili_pool=pool, max_entries=3, max_synsets=3, **_BASE)
+        prof = gen.Profile(ili_pool=pool, max_entries=max_entries, max_synsets=3, **_BASE,
+                           **({'versions': versions} if versions else {}))
         res = draw(gen.resources(prof, max_lexicons=2))
         # make lexicon ids distinct across resources
         ren = {}
@@ -436,4 +437,10 @@ SUBS = [
         require_tags=tuple('route:' + r for r in ROUTES)),
     Sub('routes-random', oracle, _classify, strategy=_strategy,
         budget={'quick': 30, 'thorough': 400}, fingerprint=_fp, sample=_sample),
+    # LMF 1.0 only (frames sit on entries and share lists with the caller's resource if the
+    # reader is careless), more entries, supplied in memory or as a plain file
+    Sub('frames-1.0', oracle, _classify,
+        strategy=lambda tier: st.sampled_from(['memory', 'xml']).flatmap(
+            lambda r: _cases(route=r, versions=('1.0',), max_entries=5)),
+        budget={'quick': 12, 'thorough': 200}, fingerprint=_fp, sample=_sample),
 ]
